@@ -189,6 +189,22 @@ PROPS = {
                         "not brought under loop invariants; bounded replays only"],
         "technique": "contract-based deductive verification of the call-site and ordering kernels + run-time contracts with an independent oracle for the partition post-conditions (bounded)",
     },
+    "C12": {
+        "level": "other",
+        "engines": [{"kind": "pyse"}],
+        "explanation": "EXHAUSTIVE (finite decision domain, real function): read_dataset's dispatch is executed for every one of the 2^15 "
+        "subsets of the variable/dimension names it inspects; each convention's defining set selects its own converter (ERA5 included), the "
+        "wavespectra set returns the dataset, nothing matching raises ValueError. PROVED (z3): uv_to_spddir returns sqrt(u^2+v^2) and a "
+        "direction in [0,360). BOUNDED (run-time contracts with independent oracles on native-convention datasets built in memory, seeded, every "
+        "run): WW3, SWAN netCDF, WWM and ERA5 converters give per-hertz-per-degree densities whose variance integrated with the converted "
+        "coordinates equals the native integral, directions keep their physical meaning (going-to turned by 180, radians to degrees, in "
+        "[0,360)), winds from components come back as speed and coming-from direction, missing ERA5 values become zero energy, lon/lat "
+        "lose a time dimension, and the caller's dataset is left untouched.",
+        "trusted_base": ["independent numpy oracles in contracts/converters.py"],
+        "assumptions": ["NDBC netCDF converter (from_ndbc) is not covered", "converters are not proved symbolically (Dataset rename/drop/assign chain): bounded replays only",
+                        "direction reproduces (u, v): concrete replays only (atan2 identities)"],
+        "technique": "exhaustive enumeration of a finite dispatch domain on the real function + run-time contracts with independent oracles (bounded) + z3 for scalar kernels",
+    },
 }
 
 _PENDING = "not yet brought under contract in the current build round (see DESIGN.md section 8 for the order of work)"
